@@ -124,6 +124,40 @@ def render(tree, st, top=True):
     return out
 
 
+def render_respelled(tree, st, rng):
+    """a NON-canonical spelling of the same version that the pattern still accepts: one of the numeric parts whose recogniser is
+    `[0-9]+` (MAJOR MINOR PATCH NUM INC0) written with a leading zero.  None when the pattern shows no such part."""
+    shown = []
+
+    def walk(t):
+        for kind, x in t:
+            if kind == "part" and x in ("MAJOR", "MINOR", "PATCH", "NUM", "INC0"):
+                shown.append(x)
+            elif kind == "grp":
+                ps = parts_of(x)
+                if ps and not all(is_zero_part(p, st) for p in ps):
+                    walk(x)
+    walk(tree)
+    if not shown:
+        return None
+    target = rng.choice(shown)
+
+    def go(t):
+        out = ""
+        for kind, x in t:
+            if kind == "lit":
+                out += x
+            elif kind == "part":
+                out += ("0" if x == target else "") + render_part(x, st)
+            else:
+                ps = parts_of(x)
+                if not ps or all(is_zero_part(p, st) for p in ps):
+                    continue
+                out += go(x)
+        return out
+    return go(tree)
+
+
 def observable_fields(tree):
     """fields shown by the pattern, left to right"""
     return [PART_FIELD[p] for p in parts_of(tree)]
